@@ -174,6 +174,14 @@ def c20(prop, tier, seed):
 CHECKS["C20"] = c20
 
 
+def c12(prop, tier, seed):
+    import smallchecks
+    return smallchecks.check_c12(prop, tier, seed)
+
+
+CHECKS["C12"] = c12
+
+
 def simc(prop, tier, seed):
     import simcheck
     return simcheck.check_sim(prop, tier, seed)
@@ -236,7 +244,20 @@ for _p in ("C14", "C15", "C16", "C17", "C18", "C19"):
                     design_ref="DESIGN.md section 6/" + _p,
                     technique="TLA+ mechanism (Simulator.tla) + observer (SimObs.tla) checked by TLC; recorded executions of the real simulator validated against the observer (SimTrace.tla)")
 
+META["C12"] = dict(
+    engine="validation", level="model_checking",
+    text=("Validation.tla states the well-formedness judgement from the property text and the documented parameter domains over an abstract "
+          "domain of machines built from adversarial value classes; TLC enumerates the whole domain slice by slice (fractions x state counts, "
+          "transition vectors with out-of-range / duplicate targets and boundary sums, 11 distribution families x parameter corners x 9 positions) "
+          "and emits every case; each case is concretised with three bit patterns and fed to Machine::validate, Machine::new, serialize->from_str "
+          "and Framework::new; TLC judges every record: accepted => WellFormed, paths agree, accepted machines build and run"),
+    note="trusted: TLC, the class->bit-pattern table of the harness; exhaustive over the abstract domain, 3 concretisations per class",
+    design_ref="DESIGN.md section 6/C12",
+    technique="TLA+ judgement spec enumerated exhaustively by TLC; differential run of all validation paths of the real code, records validated against the spec")
+
 ENGINES = [
+    dict(name="validation", path="/verif/spec/Validation.tla", serves_properties=["C12"],
+         kind_free_text="TLA+ well-formedness judgement, TLC enumeration of the abstract machine domain, validate_cases on the real constructors"),
     dict(name="simulator", path="/verif/spec/Simulator.tla", serves_properties=["C14", "C15", "C16", "C17", "C18", "C19"],
          kind_free_text="TLA+ mechanism + observer of the simulator, TLC exhaustive and trace validation, sim_driver on the real simulator"),
     dict(name="ffi", path="/verif/spec/Ffi.tla", serves_properties=["C20"],
